@@ -20,8 +20,8 @@ LEVEL_TEXT = ("For both variants, sizes 5..33 (quick) / ..70 (thorough) incl. si
               "for the theoretical covariance at the true pixel separations, in a structure-function metric that exposes 1 % geometry "
               "errors; linearity, zero offset, the Fried constant-shift law, and conformance of naturally generated rows to the observed "
               "map. Screens come in families sharing geometry but differing in pixel scale, r0 or L0 inside one process. Exploration.")
-LEVEL_NOTE = ("Trusted: aomon/oracles/vk.py. The library computes its covariances in single precision; tolerances are 30 eps32 B(0) "
-              "(measured 2e-7 B(0)). Constructions that raise LinAlgError are outside the quantifier and only counted.")
+LEVEL_NOTE = ("Trusted: aomon/oracles/vk.py. Tolerances scale with the condition number of the stencil covariance (100 / 1000 eps64 cond "
+              "B(0); measured 1.1 / 13.5 in those units up to cond 2.5e11). Constructions that raise LinAlgError are outside the quantifier and only counted.")
 RULE = "case = (variant, nx, columns | length factor, pixel scale, r0, L0, family member); non-trivial always; distinct by parameters"
 ASSUMPTIONS = ["pixel (row i, column j) of the working screen sits at (i, j) * pixel_scale and the new row at row -1",
                "the Fried reference pixel is not itself a stencil point (configurations where it is are counted and skipped)"]
@@ -144,25 +144,33 @@ def check_screen(ctx, aotools, variant, nx, ps, r0, L0, extra, rng, tag):
 
     Czz, Cxz, Cxx = cov(Z, Z), cov(X, Z), cov(X, X)
     anorm = float(np.abs(A).sum(axis=1).max())
-    tol = 30 * EPS32 * B0 * (1 + anorm)
+    evz = np.linalg.eigvalsh(Czz)
+    kappa = float(evz.max() / max(evz.min(), 1e-300 * evz.max()))
+    ctx.metric("cond(Czz)_max", kappa)
+    # double-precision solve of an ill-conditioned system: residual ~ eps64 cond(Czz) |C| (measured <= 1.1 and <= 13.5 in
+    # these units up to cond 2.5e11); 100x / 1000x those units are asserted
+    tol = (100 * 2.2e-16 * kappa + 1e-12) * B0 * (1 + anorm)
     ctx.count("identity_entries_checked", Cxz.size + Cxx.size)
     R1 = A @ Czz - Cxz
     ctx.metric("identity1_residual/(eps32 B0 (1+|A|))", float(np.abs(R1).max() / (EPS32 * B0 * (1 + anorm))))
+    ctx.metric("identity1_residual/(eps64 kappa B0 (1+|A|))", float(np.abs(R1).max() / (2.2e-16 * kappa * B0 * (1 + anorm))))
     ctx.close("A.Czz=Cxz", A @ Czz, Cxz, tol, "identity:A_Czz_eq_Cxz:" + variant + (":family_member" if tag else ""), wit, scale=B0)
     R2 = A @ Czz @ A.T + B @ B.T - Cxx
     ctx.metric("identity2_residual/(eps32 B0 (1+|A|)^2)", float(np.abs(R2).max() / (EPS32 * B0 * (1 + anorm) ** 2)))
-    ctx.close("A.Czz.At+B.Bt=Cxx", A @ Czz @ A.T + B @ B.T, Cxx, 30 * EPS32 * B0 * (1 + anorm) ** 2,
+    ctx.metric("identity2_residual/(eps64 kappa B0 (1+|A|)^2)", float(np.abs(R2).max() / (2.2e-16 * kappa * B0 * (1 + anorm) ** 2)))
+    tol2 = (1000 * 2.2e-16 * kappa + 1e-12) * B0 * (1 + anorm) ** 2
+    ctx.close("A.Czz.At+B.Bt=Cxx", A @ Czz @ A.T + B @ B.T, Cxx, tol2,
               "identity:A_Czz_At_plus_BBt_eq_Cxx:" + variant + (":family_member" if tag else ""), wit, scale=B0)
     # structure-function metric: exposes small geometric errors (1 % pixel scale, off-by-one row)
     Dth = 2 * (B0 - Cxz)
     Dimp = (np.diag(Cxx)[:, None] + np.diag(Czz)[None, :]) - 2 * (A @ Czz)
     rel = np.abs(Dimp - Dth) / Dth
-    lim = 30 * EPS32 * B0 * (1 + anorm) / Dth + 1e-9
+    lim = tol / Dth + 1e-9
     ctx.metric("structure_function_metric_rel_err/limit", float((rel / lim).max()))
     ctx.check(bool(np.all(rel <= lim)), "identity:structure_function_metric:" + variant, "implied structure function between new row and stencil deviates by %.3g (limit %.3g)"
               % (float(rel.max()), float(lim[np.unravel_index(np.argmax(rel / lim), rel.shape)])), wit)
     # innovations: variance of the new row must be the model variance
-    ctx.close("new_row_variance", np.diag(A @ Czz @ A.T + B @ B.T), np.full(nin, B0), 30 * EPS32 * B0 * (1 + anorm) ** 2, "identity:row_variance", wit, scale=B0)
+    ctx.close("new_row_variance", np.diag(A @ Czz @ A.T + B @ B.T), np.full(nin, B0), tol2, "identity:row_variance", wit, scale=B0)
     # linearity on dense content
     c1, c2 = rng.standard_normal(shape), rng.standard_normal(shape)
     b1, b2 = rng.standard_normal(nin), rng.standard_normal(nin)
@@ -234,7 +242,7 @@ def run(ctx, spec):
             if variant == "fried" and nx > 33:
                 extra = min(extra, 2)
             L0 = float(10 ** rng.uniform(0, 2))
-            ps = float(L0 * 10 ** rng.uniform(-3.3, -0.52))
+            ps = float(L0 * 10 ** rng.uniform(-5.3, -0.52))
             r0 = float(10 ** rng.uniform(-1.3, 0))
             ctx.count("families")
             # every variant directly follows the base configuration, so that even a one-entry cache with an
